@@ -58,6 +58,8 @@ def execute(trace: dict) -> Outcome:
     oracles = [engine.BlockingOracle(), engine.PresplitTwin()]
     run = engine.SingleRun(trace, oracles, ID)
     v = run.run()
+    masks = [[g is not None for g in ev["g"]] for ev in trace["events"] if ev["op"] == "step"][: run.steps_done]
+    run.probes["presence_changed"] += sum(1 for a, b in zip(masks, masks[1:]) if a != b)
     run.probes["order3plus_shape"] += sum(1 for p in trace["params"] if len(p["shape"]) >= 3)
     run.probes["size1_dim_shape"] += sum(1 for p in trace["params"] if 1 in p["shape"])
     feats = [
